@@ -39,7 +39,7 @@ Spai0Inv == pc = "spai0" =>
     IN  /\ Spai0OK(A, m)
         /\ InvSplitOK(LAMBDA r : [i \in Idx(N) |-> QMul(m[i], r[i])], A, F, X, Spai0Sweep(A, F, X))
         /\ FixedPointOK(LAMBDA f, x : Spai0Sweep(A, f, x), A, XS)
-Spai1Inv == pc = "spai1" =>
+Spai1Inv == pc = "spai1" /\ Spai1Tractable(A) =>
     LET M == Spai1M(A)
     IN  M.ok => /\ Spai1OK(A, M.val)
                 /\ InvSplitOK(LAMBDA r : SpmvQ(A, M.val, r), A, F, X, Spai1Sweep(A, M.val, F, X))
